@@ -101,6 +101,28 @@ func iriClass(s string) string {
 	return p + "+" + q
 }
 
+// a second, small grid around percent-escapes of reserved characters in the path: the decoded path decides, so ids that differ
+// only after an escaped '#', '?', '/', '%' or space are different, and an escape never starts a fragment or a query
+var escGrid = func() []gridIRI {
+	var out []gridIRI
+	for _, h := range []string{"https://example.com", "http://EXAMPLE.com:8443"} {
+		for _, p := range []string{"/tags/%23golang", "/tags/%23rust", "/tags/%23", "/q/%3Fa=1", "/q/%3Fa=2", "/files/a%2Fb", "/files/a%2Fc", "/rate/100%25", "/rate/100%25x", "/x%20y", "/x%20z", "/tags/", "/tags", "/users/j%C3%BCrgen", "/users/j%C3%B6rgen"} {
+			for _, q := range []string{"", "?x=1", "?x=%23a", "?x=%23b"} {
+				for _, f := range []string{"", "#frag"} {
+					s := h + p + q + f
+					k1, ok1 := refKey(s, true)
+					k0, ok0 := refKey(s, false)
+					if !ok1 || !ok0 {
+						panic("escape grid IRI does not parse: " + s)
+					}
+					out = append(out, gridIRI{s, [2]string{k1, k0}})
+				}
+			}
+		}
+	}
+	return out
+}()
+
 var nonURLStrings = []string{"", "-", "a", "not a url", "mailto:user@example.com", "acct:user@example.com", "/relative/path", "//host/path", "https://", "https:///nohost", "http://[::1", "%zz", "https://example.com/%zz",
 	"example.com/a", "HTTPS://EXAMPLE.COM/A", "https://example.com/a#", "#", "?", "https://user:pw@example.com/a", "urn:uuid:1234", "https://example.com/a b", "\x00", "https://例え.jp/パス", "as:Public", "Public"}
 
@@ -110,9 +132,9 @@ func init() {
 	n := len(grid)
 	Register(&Prop{
 		ID: "C14",
-		Rule: fmt.Sprintf("exhaustive grid: %d schemes x %d hosts(+port, case) x %d paths (empty, /, trailing slash, case, dot segments, doubled slashes) x %d queries (none, empty, single, reordered pair, repeated key with equal/differing/swapped values) x %d fragments = %d IRIs; every ordered pair x both scheme flags must satisfy a.Equals(b,cs) <=> refKey(a,cs)=refKey(b,cs) (hence reflexive, symmetric, transitive); IRIs.Contains must agree with exists-member-Equals; "+
+		Rule: fmt.Sprintf("exhaustive grid: %d schemes x %d hosts(+port, case) x %d paths (empty, /, trailing slash, case, dot segments, doubled slashes) x %d queries (none, empty, single, reordered pair, repeated key with equal/differing/swapped values) x %d fragments = %d IRIs; every ordered pair x both scheme flags must satisfy a.Equals(b,cs) <=> refKey(a,cs)=refKey(b,cs) (hence reflexive, symmetric, transitive); IRIs.Contains must agree with exists-member-Equals; a second grid of %d IRIs whose paths and queries hold percent-escaped reserved characters (%%23 %%3F %%2F %%25 %%20, escaped UTF-8) under the same oracle; "+
 			"seeded random strings and near-URLs are held to reflexivity and symmetry; one case = one row of the grid (a fixed left IRI against all right IRIs) or one random pair; distinct = row / pair; non-trivial = every row (each holds equal and unequal pairs)",
-			len(gridSchemes), len(gridHosts), len(gridPaths), len(gridQueries), len(gridFrags), n),
+			len(gridSchemes), len(gridHosts), len(gridPaths), len(gridQueries), len(gridFrags), n, len(escGrid)),
 		Layers: func(tier string) []Layer {
 			return []Layer{
 				{Name: "grid-rows", N: n, Exhaustive: true, Run: func(c *Ctx, idx int) {
@@ -174,6 +196,28 @@ func init() {
 						})
 					}
 				}},
+				{Name: "escaped-paths", N: len(escGrid), Exhaustive: true, Run: func(c *Ctx, idx int) {
+					a := escGrid[idx]
+					ia := vocab.IRI(a.S)
+					c.Distinct("esc-row|"+a.S, true)
+					c.Guard("IRI.Equals", func() {
+						for _, b := range escGrid {
+							for f, cs := range []bool{true, false} {
+								got, want := ia.Equals(vocab.IRI(b.S), cs), a.Key[f] == b.Key[f]
+								c.Count("escaped-comparisons", 1)
+								if got != want {
+									law := "equal-but-different-key"
+									if want {
+										law = "same-key-but-unequal"
+									}
+									c.Fail("iri|Equals|escaped-path|"+law, fmt.Sprintf("IRI(%q).Equals(%q, %v) = %v, reference normaliser says %v", a.S, b.S, cs, got, want),
+										map[string]any{"a": a.S, "b": b.S, "checkScheme": cs, "got": got, "want": want, "key_a": a.Key[f], "key_b": b.Key[f]})
+								}
+							}
+						}
+					})
+					c.Eval(2 * len(escGrid))
+				}},
 				{Name: "strings", N: tierN(tier, 50000, 1000000), Run: func(c *Ctx, idx int) {
 					mk := func() string {
 						switch c.R.Intn(4) {
@@ -222,7 +266,7 @@ func init() {
 		},
 		Assumptions: []string{
 			"reference normaliser: net/url parse, lower-cased host with port, path.Clean of the path with \"\" == \"/\", lower-cased, sorted multiset of query pairs, lower-cased scheme when asked",
-			"outside the grid by the quantifier: letter case inside queries, userinfo, percent-encoded slashes",
+			"outside the grids by the quantifier: letter case inside queries, userinfo, an escaped character against its literal form",
 		},
 	})
 }
